@@ -99,9 +99,9 @@ impl Observer for FsWatcher {
 }
 
 const SIZES: [usize; 6] = [0, 1, 4095, 4096, 65537, 1 << 20];
-const BEHAVIOURS: [&str; 11] = [
+const BEHAVIOURS: [&str; 12] = [
     "stdout", "file", "none", "both", "direct", "rm3", "fail-partial", "killself", "append", "link",
-    "linkboth",
+    "linkboth", "dir3",
 ];
 const NB: usize = BEHAVIOURS.len();
 const CELLS: u64 = (NB * 6 * 3) as u64;
@@ -122,6 +122,7 @@ fn behaviour_rule(b: &str, size: usize, version: u32, dep: bool) -> Rule {
         "rm3" => stmts.push(Stmt::Out { mode: OutMode::Rm3, pad }),
         "append" => stmts.push(Stmt::Out { mode: OutMode::Append, pad }),
         "link" => stmts.push(Stmt::Out { mode: OutMode::Link, pad }),
+        "dir3" => stmts.push(Stmt::Out { mode: OutMode::Dir3, pad }),
         "linkboth" => stmts.push(Stmt::Out { mode: OutMode::LinkBoth, pad: pad.max(1) }),
         "fail-partial" => {
             stmts.push(Stmt::Out { mode: if size % 2 == 0 { OutMode::Stdout } else { OutMode::File }, pad });
@@ -145,7 +146,7 @@ impl Property for C04 {
     }
     fn runs(&self, tier: Tier) -> u64 {
         match tier {
-            // the cross product 11 behaviours x 6 sizes x 3 prior states = 198 cells;
+            // the cross product 12 behaviours x 6 sizes x 3 prior states = 216 cells;
             // thorough walks every cell several times with different schedules and
             // kill points, quick samples each cell at least once
             Tier::Quick => 12 * CELLS,
@@ -154,12 +155,12 @@ impl Property for C04 {
     }
     fn rule(&self) -> &'static str {
         "cells of {stdout,$3,none,both,writes $1,creates+deletes $3,exit!=0 after partial output,killed \
-         by own signal,appends to $3,$3 is a dangling symlink,stdout and a dangling-symlink $3} x sizes {0,1,4095,4096,65537,1MiB} x prior state {absent,user file,\
-         previously generated}; cell = run_index mod 198 (every cell enumerated); odd rounds additionally \
-         SIGKILL the script at a drawn yield (run_index/198 walks the yields); every third round a stale \
+         by own signal,appends to $3,$3 is a dangling symlink,stdout and a dangling-symlink $3,$3 is a directory} x sizes {0,1,4095,4096,65537,1MiB} x prior state {absent,user file,\
+         previously generated}; cell = run_index mod 216 (every cell enumerated); odd rounds additionally \
+         SIGKILL the script at a drawn yield (run_index/216 walks the yields); every third round a stale \
          <target>.redo.tmp (as a killed earlier run leaves it) exists beforehand; per-step watcher records every state \
          of the target a reader can see; oracle: final bytes and status per cell, previous content kept \
-         on any failure, no *.redo.tmp left, every observed state is the previous complete content, \
+         on any failure, no *.redo.tmp left (file or directory), no abort of the builder, every observed state is the previous complete content, \
          absence or the complete new content, bytes under one inode never change; non-trivial = the \
          script executed or redo refused an existing user file; distinct = (cell, kill point, schedule \
          signature)"
@@ -264,6 +265,15 @@ impl Property for C04 {
             Some(g) => g,
             None => return v,
         };
+        if let Some(p) = has_panic(g) {
+            // an abort of the builder leaves the temporary output and the
+            // target's record to chance
+            v.push(Violation {
+                kind: "builder-abort".into(),
+                detail: format!("[{} size={} prior={}] {}; stderr: {}", b, case.meta["size"], prior, p, c09::tail(&g.results[0].stderr, 300)),
+            });
+            return v;
+        }
         if !super::oracle::judgeable(g) {
             return v;
         }
@@ -302,6 +312,10 @@ impl Property for C04 {
             // a script that writes $1 itself has changed the target by its own
             // doing before it was killed; redo cannot undo that
             (false, if b == "direct" { None } else { Some(before.clone()) })
+        } else if b == "dir3" && before.is_some() {
+            // a directory cannot be renamed over the existing file: the command
+            // fails and the previous content stays
+            (false, Some(before.clone()))
         } else {
             match expected_new.as_ref().unwrap() {
                 Ok(Built::Bytes(nb)) => (true, Some(Some(nb.clone()))),
@@ -358,10 +372,10 @@ impl Property for C04 {
                 });
             }
         }
-        if rec.fs_after[jg].keys().any(|k| k.ends_with(".redo.tmp")) {
+        if rec.fs_after[jg].keys().any(|k| k.contains(".redo.tmp")) {
             v.push(Violation {
                 kind: "temp-left-behind".into(),
-                detail: format!("{} a *.redo.tmp file is left after the command: {:?}", desc, rec.fs_after[jg].keys().filter(|k| k.ends_with(".redo.tmp")).collect::<Vec<_>>()),
+                detail: format!("{} a *.redo.tmp file is left after the command: {:?}", desc, rec.fs_after[jg].keys().filter(|k| k.contains(".redo.tmp")).collect::<Vec<_>>()),
             });
         }
         // every state a reader could see
